@@ -12,6 +12,17 @@ STRENGTHENED = {
     'C17-B': 'initially missed by C17 (size inference driven with floats only): C17 now infers sizes from Python-int carriers',
     'C15-B': 'initially missed by C15 (main diagonal only): trace and diagonal now run with offsets -1, 0, 1 on square and non-square matrices',
     'C06-B': 'initially missed by C06 (n_int with another size was driven with explicit signedness only): default signedness added',
+    'C01-A2': 'round 2; initially missed by C01 (fresh objects only): C01 now also stores into objects with a history (held a value in another format, re-formatted by resize(sizes) / resize(n_word, n_int) / resize(n_frac, n_int) / resize(dtype) / like() / raw write)',
+    'C02-A2': 'round 2; initially missed by C02: rarely used size-argument combinations added (resize(n_int) alone, n_int with like=, all four size arguments, dtype with n_int)',
+    'C04-A2': 'round 2; initially missed by C04: stickiness is now also checked through operations that are neither a write nor reset() (resize, config change, reads, arithmetic, indexing, copies, like, bitwise, shifts)',
+    'C04-B2': 'round 2; initially missed by C04: inaccuracy propagation now also runs with out=, out_like= and config.op_out destinations',
+    'C05-A2': 'round 2; initially missed by C05 (caught by C01): C05 contract part now stores the value inside list / tuple / ndarray / float32 carriers too',
+    'C05-B2': 'round 2; float16 carriers are outside the arithmetic model: the affected paths are not encoded (exit 2 of C05); C01 reports the violation since un-encoded paths are now probed concretely at several extreme witnesses',
+    'C07-A2': 'round 2; initially missed by C07 (caught by C02): operands are now also built as objects with a past, including a sign-only resize (props/common.py AGE)',
+    'C07-B2': 'round 2; initially a harness error (the overlay had no dtype views / in-place operators, the real code mutated its operand): both modelled, C07 reports operands_unchanged',
+    'C08-B2': 'round 2; initially missed by C08: the out_like template now carries raised flags of its own past',
+    'C13-A2': 'round 2; initially a canary failure only: C13 has a history part (operator used, object widened by resize / like=, operator used again)',
+    'C16-B2': 'round 2; initially missed by C16: conversions are also taken on derived objects (an element view x[i], a keep-mode shift by 0), and bool() / float() / int() call the methods of the lifted object itself',
     'C18-A': 'initially missed by the quick tier of C18 (one randomly chosen signedness for the 64-bit raw-string row): both signednesses are now always run',
 }
 def main():
